@@ -61,6 +61,7 @@ type VerifServer struct {
 	RoRefuses   bool // SET read_only blocks (lock wait) unless forced after offline+semisync disable
 	ChangedTo   []string
 	ResetSlaves int
+	Reads       int // read statements received (queryRow funnel)
 }
 
 type VerifFleet struct {
@@ -234,6 +235,7 @@ func (f *VerifFleet) queryRow(n *Node, q string, arg any, result any) error {
 		return err
 	}
 	s := f.Servers[host]
+	s.Reads++
 	if f.LogReads {
 		verifnd.Event("read " + host + " " + q)
 	}
